@@ -1,5 +1,5 @@
 CONSTANTS
-  Impl = "asis"
+  Impl = "current"
   Space = "thorough"
 INIT Init
 NEXT Next
